@@ -303,6 +303,7 @@ func c09r4(p *Program, r *Report) {
 	}
 	addInline(fi, 0)
 	tr.noAuto = func(string) bool { return true }
+	tr.appendWrites = true
 	var single, composite []*pathState
 	pooled := ""
 	ki := "routingKeyInfo"
@@ -452,7 +453,7 @@ func c09r4(p *Program, r *Report) {
 			if gotLen != 2 {
 				okLen = false
 			}
-			if !c09FreshBuffer(fi, info, st, w1.Recv, after, retIs) {
+			if !c09FreshBuffer(fi, w1.Fn, info, st, w1.Recv, after, retIs) {
 				okFresh = false
 			}
 			continue
@@ -467,7 +468,7 @@ func c09r4(p *Program, r *Report) {
 			okPair = false
 		}
 		lb := strings.TrimSuffix(put.Args[0], "[:]")
-		if put.Args[1] != "uint16(len("+m.Dst+"))" || strings.TrimSuffix(w1.Args[0], "[:]") != lb || w2.Args[0] != m.Dst || !wb.HasVal || wb.Val != 0 || w1.Recv != w2.Recv || w2.Recv != wb.Recv {
+		if strings.ReplaceAll(put.Args[1], " ", "") != "uint16(len("+m.Dst+"))" || strings.TrimSuffix(w1.Args[0], "[:]") != lb || w2.Args[0] != m.Dst || !wb.HasVal || wb.Val != 0 || w1.Recv != w2.Recv || w2.Recv != wb.Recv {
 			okFrame = false
 			gotFrame = fmt.Sprintf("put16be(%s) write(%s) write(%s) writebyte(%s)", strings.Join(put.Args, ","), w1.Args[0], w2.Args[0], wb.Arg)
 		}
@@ -475,7 +476,7 @@ func c09r4(p *Program, r *Report) {
 		if gotLen != 2 {
 			okLen = false
 		}
-		if !c09FreshBuffer(fi, info, st, w1.Recv, after, retIs) {
+		if !c09FreshBuffer(fi, w1.Fn, info, st, w1.Recv, after, retIs) {
 			okFresh = false
 		}
 	}
@@ -488,8 +489,84 @@ func c09r4(p *Program, r *Report) {
 }
 
 // c09FreshBuffer: the returned bytes are those of the buffer written, which this call created.
-func c09FreshBuffer(fi *FuncInfo, info *types.Info, st *pathState, bufRecv string, after []TraceItem, retIs func(*pathState, string) bool) bool {
+func c09FreshBuffer(fi *FuncInfo, wfn *FuncInfo, info *types.Info, st *pathState, bufRecv string, after []TraceItem, retIs func(*pathState, string) bool) bool {
 	fresh := false
+	// the key is built by appending to a byte slice that starts empty in this call and is returned itself
+	if len(after) == 0 && retIs(st, bufRecv) {
+		for _, u := range []*FuncInfo{wfn} {
+			if u == nil {
+				continue
+			}
+			uinfo := u.Pkg.TypesInfo
+			id := identNamed(u, bufRecv)
+			if id == nil || !isByteSlice(uinfo.TypeOf(id)) {
+				continue
+			}
+			// one initial definition; every other assignment appends to the slice itself
+			obj := uinfo.Uses[id]
+			var init ast.Expr
+			ninit, okShape, declared := 0, true, false
+			ast.Inspect(u.Decl.Body, func(x ast.Node) bool {
+				switch y := x.(type) {
+				case *ast.ValueSpec:
+					for i, n := range y.Names {
+						if uinfo.Defs[n] == obj {
+							ninit++
+							if i < len(y.Values) {
+								init = y.Values[i]
+							} else {
+								declared = true
+							}
+						}
+					}
+				case *ast.AssignStmt:
+					for i, l := range y.Lhs {
+						lid, isId := ast.Unparen(l).(*ast.Ident)
+						if !isId || (uinfo.Defs[lid] != obj && uinfo.Uses[lid] != obj) {
+							continue
+						}
+						if len(y.Lhs) != len(y.Rhs) {
+							okShape = false
+							continue
+						}
+						if y.Tok == token.DEFINE && uinfo.Defs[lid] == obj {
+							ninit++
+							init = y.Rhs[i]
+							continue
+						}
+						c, isC := ast.Unparen(y.Rhs[i]).(*ast.CallExpr)
+						if !isC || exprStr(c.Fun) != "append" || len(c.Args) < 1 || exprStr(ast.Unparen(c.Args[0])) != lid.Name {
+							okShape = false
+						}
+					}
+				case *ast.UnaryExpr:
+					if y.Op == token.AND && isIdentOf(uinfo, y.X, obj) {
+						okShape = false
+					}
+				}
+				return true
+			})
+			if ninit != 1 || !okShape {
+				return false
+			}
+			if declared {
+				return true
+			}
+			switch v := ast.Unparen(init).(type) {
+			case *ast.CallExpr:
+				if calleeName(uinfo, v) == "builtin.make" && len(v.Args) >= 2 {
+					if k, isK := constInt(uinfo, v.Args[1]); isK && k == 0 {
+						return true
+					}
+				}
+				return false
+			case *ast.CompositeLit:
+				return len(v.Elts) == 0
+			}
+			return isNil(uinfo, init)
+		}
+		return false
+	}
 	if len(after) == 1 && after[0].Prim == "bytes" && after[0].Recv == bufRecv && (retIs(st, after[0].Dst) || posWithin(st.retStmt, after[0].Pos)) {
 		if id := identNamed(fi, bufRecv); id != nil {
 			if d := localDef(info, fi, id); d != nil {
@@ -700,6 +777,12 @@ func c09r5(p *Program, r *Report) {
 		tr.prims = map[string]string{"sort.Sort": "sort", "sort.Stable": "sort"}
 		tr.noAuto = func(string) bool { return true }
 		tr.trackField = "partitioner"
+		// the choice of the implementation may live in a helper of its own
+		for _, h := range p.privateCallees(fi) {
+			if h.Decl.Recv == nil {
+				tr.inline[h.Name] = true
+			}
+		}
 		got := map[string]map[string]bool{}
 		sorted, unsortedPath := true, ""
 		rejectsOthers := true
@@ -719,6 +802,11 @@ func c09r5(p *Program, r *Report) {
 			for _, it := range flat(st.trace) {
 				if it.Prim == "field" {
 					typ = typeNameOf(info.TypeOf(it.Expr))
+					if id, isId := ast.Unparen(it.Expr).(*ast.Ident); isId {
+						if t, has := st.valT[id.Name]; has {
+							typ = typeNameOf(t)
+						}
+					}
 				}
 				if it.Prim == "sort" {
 					hasSort = true
